@@ -41,6 +41,11 @@ def run(prog, ctx):
             ctx.check(ok, "C16.D1", R.key_of(fi, "symmetric:%s#%d" % (m, k)), fi.loc(st),
                       "upper-triangle store has its mirrored companion (%s)" % detail,
                       "`%s` inside a triangular loop has no mirrored store %s[j][i] with the same value: the system matrix is not symmetric" % (src(st), m))
+        for k, (loop, ok, detail) in enumerate(R.triangle_coverage_report(fi)):
+            ctx.check(ok, "C16.D1", R.key_of(fi, "whole-triangle#%d" % k), fi.loc(loop),
+                      "the triangular loop pair enumerates every pair j >= i (%s)" % detail,
+                      "the inner loop `for %s in %s` stops before the end of the index range of the outer loop (%s): entries outside that band "
+                      "keep their initial value" % (loop.target.id, src(loop.iter), detail))
     ctx.floor("C16.D1", n1, 3, "triangular-loop stores in the R-matrix builders")
 
     # ------------------------------------------------------------------ D2
